@@ -56,6 +56,9 @@ type master struct {
 type crashCase struct {
 	L    int
 	Mode string // absent zero zero64k garbage
+	// Flow: "startup" = OpenDatabase fails -> CheckDatabase -> Repair (what the server does);
+	// "action" = CheckDatabase -> Repair without a read-write open before (gsuneido -repair)
+	Flow string
 }
 
 type job struct {
@@ -178,9 +181,11 @@ func buildMaster(r *rand.Rand, path string, targetSize int, sessions int) (*mast
 		}
 		// aim a state record across a page boundary (the case that needs reads beyond the file end to be safe)
 		overhead := 0
+		straddles := 0
 		for try := 0; try < 40; try++ {
 			before := size()
-			want := page - stateLen/2 // state offset within its page
+			// state offset within its page: the boundary falls into a different field each time
+			want := page - []int{3, 9, 11, 14, 18, 23, 27, 30, 34}[(fillerKey+s)%9]
 			fill := ((want-(before+overhead))%page + page) % page
 			if fill < 8 {
 				fill += page
@@ -197,7 +202,9 @@ func buildMaster(r *rand.Rand, path string, targetSize int, sessions int) (*mast
 			st := h.Persist()
 			overhead = int(st.Off) - before - fill
 			if int(st.Off)%page > page-stateLen {
-				break
+				if straddles++; straddles >= 3 {
+					break
+				}
 			}
 		}
 		if err := closeSession(); err != nil {
@@ -355,14 +362,14 @@ func call(fn func()) (kind string, val any, stack string) {
 }
 
 func runCase(m *master, data []byte, c crashCase, file string) (res caseResult) {
-	res.L, res.Mode = c.L, c.Mode
+	res.L, res.Mode = c.L, c.Mode+"/"+c.Flow
 	res.InsideWhat = m.inside(c.L)
 	logBuf.Reset()
 	add := func(class string, detail map[string]any) {
 		if detail == nil {
 			detail = map[string]any{}
 		}
-		detail["L"], detail["mode"], detail["cut_inside"] = c.L, c.Mode, res.InsideWhat
+		detail["L"], detail["mode"], detail["flow"], detail["cut_inside"] = c.L, c.Mode, c.Flow, res.InsideWhat
 		detail["db_size"] = m.Size
 		detail["log"] = vk.Trunc(logBuf.String(), 1500)
 		res.Findings = append(res.Findings, finding{class, detail})
@@ -383,45 +390,60 @@ func runCase(m *master, data []byte, c crashCase, file string) (res caseResult) 
 	clean := exp >= 0 && m.States[exp].SessionEnd && eff == int(m.States[exp].Off)+stateLen+tailLen &&
 		bytes.Equal(content[:eff], data[:eff])
 
-	// 1. open
+	// 1. open (startup flow only)
 	var db *db19.Database
 	var oerr error
-	if os.Getenv("VERIF_C05_SKIPOPEN") != "" {
-		oerr = fmt.Errorf("skipped")
-	}
-	kind, val, stack := call(func() {
-		if oerr == nil {
-			db, oerr = db19.OpenDatabase(file)
-		}
-	})
-	opened := kind == "" && oerr == nil
-	switch {
-	case kind == "go-runtime-error":
-		add("C05/open-go-runtime-error", map[string]any{"panic": fmt.Sprint(val), "stack": vk.Trunc(stack, 2500)})
-	case kind == "fatal":
-		res.Fatal = "open"
-	}
-	if clean {
-		res.Kind = "clean-open"
-		if !opened {
-			add("C05/clean-file-refused", map[string]any{"error": fmt.Sprint(oerr, val)})
+	var kind, stack string
+	var val any
+	if c.Flow == "action" {
+		if clean {
+			res.Kind = "clean-open"
+			var cerr error
+			kind, val, _ = call(func() { cerr = db19.CheckDatabase(file, false) })
+			if kind != "" || cerr != nil {
+				add("C05/clean-file-fails-check", map[string]any{"error": fmt.Sprint(cerr, val)})
+				return
+			}
+			kind, val, _ = call(func() { db, oerr = db19.OpenDatabase(file) })
+			if kind != "" || oerr != nil {
+				add("C05/clean-file-refused", map[string]any{"error": fmt.Sprint(oerr, val)})
+				return
+			}
+			verify(m, db, exp, add, "clean-open")
+			call(func() { db.Close() })
 			return
 		}
-		verify(m, db, exp, add, "clean-open")
-		call(func() { db.Close() })
-		return
-	}
-	if opened {
-		add("C05/damaged-file-opened", map[string]any{"expected_state": exp})
-		call(func() { db.Close() })
-		return
+	} else {
+		kind, val, stack = call(func() { db, oerr = db19.OpenDatabase(file) })
+		opened := kind == "" && oerr == nil
+		switch {
+		case kind == "go-runtime-error":
+			add("C05/open-go-runtime-error"+emptyFile(eff), map[string]any{"panic": fmt.Sprint(val), "stack": vk.Trunc(stack, 2500)})
+		case kind == "fatal":
+			res.Fatal = "open"
+		}
+		if clean {
+			res.Kind = "clean-open"
+			if !opened {
+				add("C05/clean-file-refused", map[string]any{"error": fmt.Sprint(oerr, val)})
+				return
+			}
+			verify(m, db, exp, add, "clean-open")
+			call(func() { db.Close() })
+			return
+		}
+		if opened {
+			add("C05/damaged-file-opened", map[string]any{"expected_state": exp})
+			call(func() { db.Close() })
+			return
+		}
 	}
 	// 2. check must report an error, not die
 	var cerr error
 	kind, val, stack = call(func() { cerr = db19.CheckDatabase(file, false) })
 	switch {
 	case kind == "go-runtime-error":
-		add("C05/check-go-runtime-error", map[string]any{"panic": fmt.Sprint(val), "stack": vk.Trunc(stack, 2500)})
+		add("C05/check-go-runtime-error"+emptyFile(eff), map[string]any{"panic": fmt.Sprint(val), "stack": vk.Trunc(stack, 2500)})
 	case kind == "fatal":
 		res.Fatal = "check"
 	case kind == "" && cerr == nil:
@@ -437,7 +459,11 @@ func runCase(m *master, data []byte, c crashCase, file string) (res caseResult) 
 	kind, val, stack = call(func() { msg, rerr = db19.Repair(file, pass) })
 	switch {
 	case kind == "go-runtime-error":
-		add("C05/repair-go-runtime-error", map[string]any{"panic": fmt.Sprint(val), "stack": vk.Trunc(stack, 2500)})
+		class := "C05/repair-go-runtime-error" + emptyFile(eff)
+		if eff > 0 && exp < 0 && len(scanStates(content)) == 0 {
+			class += "/no-state-record-in-file"
+		}
+		add(class, map[string]any{"panic": fmt.Sprint(val), "stack": vk.Trunc(stack, 2500)})
 		return
 	case kind == "fatal":
 		res.Fatal = "repair"
@@ -476,6 +502,13 @@ func runCase(m *master, data []byte, c crashCase, file string) (res caseResult) 
 		add("C05/repaired-file-fails-full-check", map[string]any{"error": fmt.Sprint(cerr, val), "repair_msg": msg})
 	}
 	return
+}
+
+func emptyFile(eff int) string {
+	if eff == 0 {
+		return "/empty-file"
+	}
+	return ""
 }
 
 func verify(m *master, db *db19.Database, exp int, add func(string, map[string]any), msg string) {
@@ -562,7 +595,7 @@ func TestVerifC05(t *testing.T) {
 	}
 	m.Name = fmt.Sprintf("own-%d", vk.Shard())
 	observeMaster(rep, m)
-	cases := boundaryCases(m, r, vk.N(1536, 24000)/4)
+	cases := boundaryCases(m, r, vk.N(1536, 24000))
 	runCases(rep, m, cases, dir)
 
 	// 2. thorough: every byte offset of one small database, shared by all children
@@ -603,9 +636,8 @@ func TestVerifC05(t *testing.T) {
 		}
 		var ec []crashCase
 		for L := vk.Shard(); L <= em.Size; L += vk.NShards() {
-			for _, mode := range []string{"absent", "zero", "garbage"} {
-				ec = append(ec, crashCase{L, mode})
-			}
+			ec = append(ec, crashCase{L, "absent", "startup"}, crashCase{L, "absent", "action"},
+				crashCase{L, "zero", "startup"}, crashCase{L, "garbage", []string{"startup", "action"}[L%2]})
 		}
 		rep.Count("exhaustive_cases", len(ec))
 		if runCases(rep, em, ec, dir) {
@@ -680,7 +712,7 @@ func boundaryCases(m *master, r *rand.Rand, budget int) []crashCase {
 		pages = append(pages, p-1, p, p+1)
 	}
 	r.Shuffle(len(pages), func(i, j int) { pages[i], pages[j] = pages[j], pages[i] })
-	nOffsets := budget / 3
+	nOffsets := budget / 4
 	// interleave: boundaries, pages, random
 	var offs []int
 	offs = append(offs, must...)
@@ -705,9 +737,8 @@ func boundaryCases(m *master, r *rand.Rand, budget int) []crashCase {
 		if i%4 == 0 {
 			third = "zero64k"
 		}
-		for _, mode := range []string{"absent", "zero", third} {
-			cases = append(cases, crashCase{L, mode})
-		}
+		cases = append(cases, crashCase{L, "absent", "startup"}, crashCase{L, "absent", "action"},
+			crashCase{L, "zero", "startup"}, crashCase{L, third, []string{"startup", "action"}[i%2]})
 	}
 	return cases
 }
@@ -727,7 +758,7 @@ func runCases(rep *vk.Report, m *master, cases []crashCase, dir string) bool {
 		part := cases[start:end]
 		from := 0
 		for from < len(part) {
-			rep.Case("db %s size %d batch cases %d..%d from L=%d mode=%s", m.Name, m.Size, start+from, end-1, part[from].L, part[from].Mode)
+			rep.Case("db %s size %d batch cases %d..%d from L=%d mode=%s/%s", m.Name, m.Size, start+from, end-1, part[from].L, part[from].Mode, part[from].Flow)
 			results, died, log, hung := runBatch(m, metaFile, part, from, dir)
 			for _, res := range results {
 				record(rep, m, res)
@@ -744,8 +775,8 @@ func runCases(rep *vk.Report, m *master, cases []crashCase, dir string) bool {
 				break
 			}
 			c := part[next]
-			key := fmt.Sprintf("db=%s size=%d L=%d mode=%s cut-inside=%s", m.Name, m.Size, c.L, c.Mode, m.inside(c.L))
-			rep.Eval(vk.Hash64(m.Size, c.L, c.Mode), true)
+			key := fmt.Sprintf("db=%s size=%d L=%d mode=%s/%s cut-inside=%s", m.Name, m.Size, c.L, c.Mode, c.Flow, m.inside(c.L))
+			rep.Eval(vk.Hash64(m.Size, c.L, c.Mode, c.Flow), true)
 			rep.Seen("cut_inside", m.inside(c.L))
 			if hung {
 				// re-run alone: only a reproducible hang is a violation
@@ -838,6 +869,9 @@ func record(rep *vk.Report, m *master, res caseResult) {
 	rep.Count("outcome_"+res.Kind, 1)
 	rep.Seen("cut_inside", res.InsideWhat)
 	rep.Count("cut_inside_"+res.InsideWhat, 1)
+	if res.InsideWhat == "page-aligned-in-state" {
+		rep.Count("cuts_page_aligned_inside_state", 1)
+	}
 	if res.Fatal != "" {
 		rep.Count("refused_by_fatal_in_"+res.Fatal, 1)
 	}
